@@ -6,6 +6,7 @@ import DelbDriver.Compare
 import DelbDriver.Serialize
 import DelbDriver.Pretty
 import DelbDriver.Edit
+import DelbDriver.Nav
 open Lean DelbDriver
 
 def dispatch (j : Json) : Except String Json := do
@@ -18,6 +19,7 @@ def dispatch (j : Json) : Except String Json := do
   | "serialize" => handleSerialize j
   | "pretty" => handlePretty j
   | "edits" => handleEdits j
+  | "nav" => handleNav j
   | "tokenize" => handleTokenize j
   | "reduce_content" => handleReduceContent j
   | _ => throw s!"unknown cmd {cmd}"
